@@ -5,7 +5,9 @@ C06 — Result completeness: every reported sample is written once, well-formed,
       the constants and the field-index order are REGENERATED from /repo (`Pandora.Gen.Phout`) and bridged.
 (ii)  reporters × bounded queue × aggregator Run loop (`Model.AggQueue`), all interleavings.
 (iii) process shutdown (`Model.CliShutdown`), all event orders; which variant of the signal branch the
-      code is comes from the regenerated `Pandora.Gen.Cli`.
+      code is, which signals are notified and which cancel comes from the regenerated `Pandora.Gen.Cli`.
+(iv)  the pool's await loop (`Model.C06Pool`); (v) `Engine.Run` over any number of pools and the context tree of
+      `runAsync` (`Model.C06Engine`); (vi) a sink that starts to reject writes (`Model.C06SinkFail`).
 The tie of the models to the running code is the correspondence harness (harness/cmd/c06).
 -/
 import Pandora.Bridge.C06Phout
@@ -14,6 +16,8 @@ import Pandora.Bridge.C06AggQ
 import Pandora.Proofs.C06Queue
 import Pandora.Proofs.C06Return
 import Pandora.Proofs.C06Pool
+import Pandora.Proofs.C06Engine
+import Pandora.Proofs.C06SinkFail
 
 namespace Pandora.Props.C06
 open Pandora.Model.Phout Pandora.Proofs.C06
@@ -636,6 +640,165 @@ example :
 
 end Pool
 
+/-! ## (v) from the await loop to `Engine.Run`'s return value; who runs under which context -/
+
+section Engine
+open Pandora.Model.C06Engine Pandora.Proofs.C06Engine Pandora.Proofs.C06Pool
+
+/-- **`Engine.Run` returns nil only after every aggregator returned** — any number `n` of pools, every
+interleaving of the pools' goroutines (each pool is the free-running await-loop system, external cancels
+included), of the `pool.Run` selects, of the result sends/suppressions and of `Engine.Run`'s loop: if
+`Engine.Run` returned nil then EVERY pool's `Run` returned nil, which it does only on the closed `awaitErr`,
+i.e. after `awaitRun` was over: the pool's aggregator `Run` had returned (drained, flushed, closed) and its result was
+taken, no instance is running, nothing was sent on a closed channel. This is the enabling condition of
+`engineReturned true` in the shutdown model and what `kind=engine` of the harness observes.
+The loop awaits `len(Pools)` results (`Bridge.AggQ.engineRunLoopBound_eq`), the await loop four
+(`Gen.AggQ.engineResultsToWait`). -/
+theorem C06_engine_nil_after_aggregators (n : Nat) (trace : List EEv) :
+    let st := run (init n n Gen.AggQ.engineResultsToWait) trace
+    st.ret = some true →
+      ∀ j, j < n → (st.pools j).ret = some true ∧ (st.pools j).p.waitDone = true ∧
+        (st.pools j).p.aggDone = true ∧ (st.pools j).p.aggOpen = false ∧ (st.pools j).p.runResOpen = false ∧
+        (st.pools j).p.running = 0 ∧ (st.pools j).p.sendOnClosed = false := by
+  intro st hret j hj
+  have hst : st = run (init n n 4) trace := by
+    show run (init n n Gen.AggQ.engineResultsToWait) trace = _
+    rw [Bridge.AggQ.results_to_wait]
+  have inv : EngInv st := by rw [hst]; exact enginv_run trace (enginv_init n n)
+  have hn : st.n = n ∧ st.awaitN = n := by rw [hst]; exact n_run trace _
+  have hle := inv.retOk hret
+  have hcnt := inv.cnt
+  have hle2 := countGot_le st.n st.got
+  have hfull : countGot st.n st.got = st.n := by omega
+  have hg := countGot_full st.n st.got hfull j (by omega)
+  obtain ⟨_, _, hr⟩ := inv.gotOk j hg
+  have hw := inv.retNil j hr
+  obtain ⟨a, b, c, d, _⟩ := wd_all (inv.pinv j) hw
+  exact ⟨hr, hw, a, b, c, d, (inv.pinv j).noSend⟩
+
+/-- the same for one pool, whatever the engine does: `pool.Run` returns nil only after its aggregator returned -/
+theorem C06_engine_pool_nil_after_aggregator (n awaitN : Nat) (trace : List EEv) (j : Nat) :
+    let st := run (init n awaitN Gen.AggQ.engineResultsToWait) trace
+    (st.pools j).ret = some true → (st.pools j).p.aggDone = true ∧ (st.pools j).p.running = 0 := by
+  intro st hr
+  have hst : st = run (init n awaitN 4) trace := by
+    show run (init n awaitN Gen.AggQ.engineResultsToWait) trace = _
+    rw [Bridge.AggQ.results_to_wait]
+  have inv : EngInv st := by rw [hst]; exact enginv_run trace (enginv_init n awaitN)
+  obtain ⟨a, _, _, d, _⟩ := wd_all (inv.pinv j) (inv.retNil j hr)
+  exact ⟨a, d⟩
+
+/-- non-vacuity: two pools, each with one instance that reports and finishes; both pools wind down, both results
+are received, `Engine.Run` returns nil -/
+example :
+    let pool : Nat → List EEv := fun j =>
+      ([.launch, .startDone, .report 0, .finish, .awaitStart, .awaitInst, .aggReturn, .awaitAgg, .provReturn,
+        .awaitProv, .waitDone] : List Pandora.Model.C06Pool.PEv).map (EEv.pool j) ++ [.poolRetClosed j, .poolSend j, .engRecv]
+    (run (init 2 2 4) (pool 1 ++ pool 0 ++ [.engRetNil])).ret = some true := by decide
+
+/-- the loop bound matters: a loop that awaits one result less returns nil while an aggregator is still running -/
+theorem C06_engine_bound_counterexample :
+    let st := run (init 1 0 4) [.engRetNil]
+    st.ret = some true ∧ (st.pools 0).p.aggDone = false := by decide
+
+/-- **who is cancelled by what** — read off the regenerated derivation table of `runAsync`: the aggregator (and
+the provider) run under `runCtx`; `runCancel`, which the await loop calls once all instances have finished,
+cancels it; `instanceStartCancel` (out of ammo while instances are still shooting, the shared schedule's finish)
+cancels the instance-start context only — never the aggregator; a cancel from above (Engine.Run's context:
+SIGINT/SIGTERM, another pool's failure) reaches the aggregator, nothing the pool does cancels the parent. -/
+theorem C06_engine_contexts :
+    Gen.AggQ.engineAggregatorRunCtx = [Gen.AggQ.engineHandleRunCtx] ∧
+    (cancelledBy Gen.AggQ.engineCtxDerive Gen.AggQ.engineHandleRunCancel).contains Gen.AggQ.engineHandleRunCtx = true ∧
+    (cancelledBy Gen.AggQ.engineCtxDerive Gen.AggQ.engineHandleInstanceStartCancel).contains Gen.AggQ.engineHandleRunCtx = false ∧
+    (doneWith Gen.AggQ.engineCtxDerive Gen.AggQ.enginePoolCtxParam).contains Gen.AggQ.engineHandleRunCtx = true ∧
+    (doneWith Gen.AggQ.engineCtxDerive Gen.AggQ.engineHandleRunCtx).contains Gen.AggQ.enginePoolCtxParam = false ∧
+    Gen.AggQ.engineInstanceGoStmts = 0 := by
+  have h := Bridge.AggQ.ctx_tree
+  exact ⟨h.1, h.2.2.2.2.1, h.2.2.2.2.2.2.2.1, h.2.2.2.2.2.2.2.2.1, h.2.2.2.2.2.2.2.2.2, Bridge.AggQ.instance_run_synchronous.1⟩
+
+/-- the functions of core/engine and cli between the await loop and the process exit are the ones the models of
+(iii)–(v) were written from -/
+theorem C06_source_shape_engine :
+    Gen.AggQ.engineRun = Bridge.AggQ.engineRunExpected ∧
+    Gen.AggQ.enginePoolRun = Bridge.AggQ.enginePoolRunExpected ∧
+    Gen.AggQ.engineRunAsync = Bridge.AggQ.engineRunAsyncExpected ∧
+    Gen.AggQ.engineStartInstances = Bridge.AggQ.engineStartInstancesExpected ∧
+    Gen.AggQ.engineOnErrAwaited = Bridge.AggQ.engineOnErrAwaitedExpected ∧
+    Gen.AggQ.engineRunNewInstance = Bridge.AggQ.engineRunNewInstanceExpected ∧
+    Gen.AggQ.engineInstanceRun = Bridge.AggQ.engineInstanceRunExpected ∧
+    Gen.AggQ.cliReadConfigAndRunEngine = Bridge.AggQ.cliReadConfigAndRunEngineExpected ∧
+    Gen.AggQ.engineRunLoopBound = Bridge.AggQ.engineRunLoopBoundExpected :=
+  ⟨Bridge.AggQ.engineRun_eq, Bridge.AggQ.enginePoolRun_eq, Bridge.AggQ.engineRunAsync_eq,
+   Bridge.AggQ.engineStartInstances_eq, Bridge.AggQ.engineOnErrAwaited_eq, Bridge.AggQ.engineRunNewInstance_eq,
+   Bridge.AggQ.engineInstanceRun_eq, Bridge.AggQ.cliReadConfigAndRunEngine_eq, Bridge.AggQ.engineRunLoopBound_eq⟩
+
+end Engine
+
+/-! ## (vi) a sink that starts to reject writes -/
+
+section SinkFail
+open Pandora.Model.C06SinkFail Pandora.Proofs.C06SinkFail
+
+/-- **closed exactly once, whatever the sink does** — both aggregators, every schedule, the sink may start to
+reject writes at any moment: the sink is closed exactly when `Run` has returned, once, and nothing is written
+after the close (the deferred flush comes before the deferred close on every return path, the error paths
+included). This is what the harness checks with `fail=N` / `kind=sinkfail`. -/
+theorem C06_sinkfail_closed_once (kind : Kind) (trace : List Ev) :
+    let st := run kind {} trace
+    st.closes ≤ 1 ∧ (st.phase = .returned ↔ st.closes = 1) ∧ st.writeAfterClose = false := by
+  intro st
+  have inv : Inv kind st := inv_run kind trace (inv_init kind)
+  by_cases hp : st.phase = .returned
+  · have := (inv.done hp).1
+    exact ⟨by omega, ⟨fun _ => this, fun _ => hp⟩, inv.wac⟩
+  · have := (inv.live hp).2.2.2.1
+    exact ⟨by omega, ⟨fun h => absurd h hp, fun h => by omega⟩, inv.wac⟩
+
+/-- "a rejected write makes `Run` return an error" as a statement … -/
+def C06_sinkfail_reported_statement : Prop :=
+  ∀ (kind : Kind) (trace : List Ev), let st := run kind {} trace
+    st.phase = .returned → st.failed = true → st.err = true
+
+/-- … is false for both aggregators: the sink breaks after the last sample was handled; the final flush is
+rejected; phout discards that error (`_ = a.writer.Flush()`), the JSON encoder discards the error of its bufio
+layer (`_ = e.buf.Flush()`); `Run` returns nil and the lines are gone. (The property is silent about failing
+sinks; listed in notes/C06.md as observed, not claimed.) -/
+theorem C06_sinkfail_reported_counterexample : ¬ C06_sinkfail_reported_statement := by
+  intro h
+  have := h .phout [.report, .recv false, .sinkBreaks, .cancel, .seeCancel, .drain false] (by decide) (by decide)
+  revert this
+  decide
+
+/-- the jsonlines witness of the same -/
+example :
+    let st := run .jsonlines {} [.report, .recv false, .sinkBreaks, .cancel, .seeCancel, .drain false]
+    st.phase = .returned ∧ st.failed = true ∧ st.err = false ∧ st.written = 0 ∧ st.failedInLastFlush = true := by
+  decide
+
+/-- what holds instead (`_partial`), every schedule: `Run` returns an error exactly when an operation that hands
+the writer's error to it (phout: `handle`, i.e. the next sample; jsonlines: the stream's flush, which every tick
+and the return path perform) completed after the rejected write; hence for jsonlines the ONLY rejected write that is
+not reported is the very last flush of the bufio layer; for phout it is one after which no sample was handled. -/
+theorem C06_sinkfail_reported_partial (kind : Kind) (trace : List Ev) :
+    let st := run kind {} trace
+    st.phase = .returned →
+      st.err = st.checkedAfterFail ∧
+      (kind = .jsonlines → st.failed = true → st.err = false → st.failedInLastFlush = true) ∧
+      (st.failedInLastFlush = true → st.failed = true ∧ st.err = false) := by
+  intro st hp
+  have inv : Inv kind st := inv_run kind trace (inv_init kind)
+  exact ⟨(inv.done hp).2, fun hk => inv.json hk hp, inv.last⟩
+
+/-- non-vacuity: a failure in a ticker flush IS reported by jsonlines (the next stream flush meets the sticky
+error) and by phout as soon as one more sample is handled -/
+example :
+    (run .jsonlines {} [.report, .recv false, .sinkBreaks, .tick false, .cancel, .seeCancel, .drain false]).err = true ∧
+    (run .phout {} [.report, .recv false, .sinkBreaks, .tick false, .report, .recv false]).err = true ∧
+    (run .phout {} [.report, .recv false, .sinkBreaks, .tick false, .cancel, .seeCancel, .drain false]).err = false := by
+  decide
+
+end SinkFail
+
 /-! ## the models are the code: regenerated control skeletons -/
 
 /-- **tie to the source** — the control skeletons of the functions the three transition systems mirror, re-read
@@ -680,39 +843,60 @@ theorem C06_source_shape :
 section Cli
 open Pandora.Model.CliShutdown Pandora.Proofs.C06Cli
 
-/-- **shutdown** — on every path (every order of signals, engine return, task completion, timer and the
-main goroutine's select choices) an exit of the process is preceded by the completion of all engine tasks
-(aggregators flushed and closed), or by the shutdown timeout, or it is the forced exit on a second signal.
-The variant of the signal branch is the one regenerated from cli/cli.go. -/
+/-- **shutdown** — on every path (every order of SIGINT/SIGTERM deliveries, engine return, task completion,
+timer and the main goroutine's select choices) an exit of the process is preceded by the completion of all
+engine tasks (aggregators flushed and closed), or by the shutdown timeout, or it is the forced exit on a
+second signal; in particular no signal kills the process by its default action. The configuration (does the
+signal branch wait, which signals are passed to `signal.Notify`, which cases cancel) is the one regenerated
+from cli/cli.go (`Bridge.Cli.codeCfg`). -/
 theorem C06_shutdown (trace : List Ev) (x : Exit)
-    (h : (run Gen.Cli.signalErrsBranchWaits {} trace).exit = some x) :
+    (h : (run Bridge.Cli.codeCfg {} trace).exit = some x) :
     x.flushed = true ∨
-    (x.reason = .timeout ∧ (run Gen.Cli.signalErrsBranchWaits {} trace).timerFired = true) ∨
-    (x.reason = .secondSignal ∧ 2 ≤ (run Gen.Cli.signalErrsBranchWaits {} trace).delivered) := by
-  rw [Bridge.Cli.cli_waits] at h ⊢
-  exact (inv_run trace inv_init).exitOk x h
+    (x.reason = .timeout ∧ (run Bridge.Cli.codeCfg {} trace).timerFired = true) ∨
+    (x.reason = .secondSignal ∧ 2 ≤ (run Bridge.Cli.codeCfg {} trace).delivered) :=
+  (inv_run Bridge.Cli.cli_good trace inv_init).exitOk x h
 
 /-- one signal, no timeout: the result is complete -/
 theorem C06_shutdown_single_signal (trace : List Ev) (x : Exit)
-    (h : (run Gen.Cli.signalErrsBranchWaits {} trace).exit = some x)
-    (h1 : (run Gen.Cli.signalErrsBranchWaits {} trace).delivered ≤ 1)
+    (h : (run Bridge.Cli.codeCfg {} trace).exit = some x)
+    (h1 : (run Bridge.Cli.codeCfg {} trace).delivered ≤ 1)
     (h2 : x.reason ≠ .timeout) : x.flushed = true := by
   rcases C06_shutdown trace x h with hf | ⟨ht, _⟩ | ⟨_, hd⟩
   · exact hf
   · exact absurd ht h2
   · omega
 
-/-- non-vacuity: SIGTERM, engine returns, tasks finish, exit — flushed -/
+/-- **a signal cancels the run** — on every path: once the main goroutine has taken a signal (or the engine's
+error) the run context is cancelled, and it is cancelled at every exit other than the normal finish; so the
+engine is never left running into the interrupt timeout because nobody told it to stop. -/
+theorem C06_shutdown_cancels (trace : List Ev) :
+    let st := run Bridge.Cli.codeCfg {} trace
+    ((st.pc = .sigWait ∨ st.pc = .sigWaitTasks ∨ st.pc = .errWait) → st.cancelled = true) ∧
+    (∀ x, st.exit = some x → x.reason ≠ .finished → st.cancelled = true) :=
+  ⟨(inv_run Bridge.Cli.cli_good trace inv_init).canc, (inv_run Bridge.Cli.cli_good trace inv_init).exitCanc⟩
+
+/-- non-vacuity: SIGTERM, engine returns, tasks finish, exit — flushed, cancelled -/
 example :
-    (run true {} [.signal .term, .takeSignal, .engineReturned false, .takeErrs, .tasksDone,
-        .takeWaitDone]).exit = some ⟨.interrupted, true⟩ := by decide
+    (run Bridge.Cli.codeCfg {} [.signal .term, .takeSignal, .engineReturned false, .takeErrs, .tasksDone,
+        .takeWaitDone]).exit = some ⟨.interrupted, true⟩ ∧
+    (run Bridge.Cli.codeCfg {} [.signal .term, .takeSignal]).cancelled = true := by decide
 
 /-- the code as found (exit as soon as `errs` is ready) does not have the property -/
 theorem C06_shutdown_unrepaired_counterexample :
-    ¬ (∀ (trace : List Ev) (x : Exit), (run false {} trace).exit = some x →
+    ¬ (∀ (trace : List Ev) (x : Exit), (run { Cfg.repaired with waitOnErrs := false } {} trace).exit = some x →
         x.flushed = true ∨ x.reason = .timeout ∨ x.reason = .secondSignal) := by
   intro h
   have := h [.signal .term, .takeSignal, .engineReturned false, .takeErrs] ⟨.interrupted, false⟩ (by decide)
+  simp at this
+
+/-- `signal.Notify` without SIGTERM (e.g. `signal.Notify(sigs, os.Interrupt)`) does not have the property either:
+SIGTERM then keeps its default action and ends the process at once, whatever is buffered is lost -/
+theorem C06_shutdown_unnotified_counterexample :
+    ¬ (∀ (trace : List Ev) (x : Exit),
+        (run { Cfg.repaired with notified := fun s => s == .int } {} trace).exit = some x →
+        x.flushed = true ∨ x.reason = .timeout ∨ x.reason = .secondSignal) := by
+  intro h
+  have := h [.signal .term] ⟨.killed, false⟩ (by decide)
   simp at this
 
 end Cli
